@@ -132,6 +132,13 @@ def run(chk, facts_dir, tier):
             if calls(c, openidx + "::flush_inner"):
                 bg = c
         if bg is None:
+            # the closure's body may have been extracted into a helper: `pool.spawn(move || Self::flush_in_background(..))`
+            for c in cls:
+                for bi, t in c.calls():
+                    hb = prog.bodies.get(c.callee(t) or c.callee_decl(t) or "")
+                    if hb is not None and calls(hb, openidx + "::flush_inner"):
+                        bg = hb
+        if bg is None:
             chk.fail("R6.2", close, "no-background-flush", "close no longer flushes the index through flush_inner in its background closure", cb)
             continue
         chk.analysed(bg.path)
